@@ -50,6 +50,90 @@ def ref_debounce(runs, d):
     return out
 
 
+# ---- hardening: the same value in other representations ----------------------
+# (only the implementation side sees these; the model line is the one of the plain case)
+EPOCH_VARS = ['uint8', 'int8', 'int32', 'int64', 'float32', 'float64',     # 0/1 in another dtype (TTL lines are often uint8)
+              'stride', 'negstride', 'pd', 'pos0', 'kw', 'kwpad']
+SMOOTH_VARS = ['list', 'tuples', 'int32', 'int16', 'float', 'half', 'fortran', 'view', 'kw']
+DEBOUNCE_VARS = ['int32', 'int16', 'uint16', 'uint64', 'float', 'half', 'fortran', 'view', 'kw',
+                 'd-int64', 'd-int32', 'd-uint8', 'd-int16']
+BIG = 2 ** 40            # sample numbers far beyond 32 bits
+# Demands that FAIL on the unchanged library and wait for the integrator's decision (notes/C18.md, "hardening"):
+# a read-only boolean array makes util.epochs raise; smooth_epochs column-sorts the caller's ndarray in place.
+# They are generated / demanded only with VERIF_PENDING=1.
+import os
+PENDING = os.environ.get('VERIF_PENDING') == '1'
+
+
+def build_bits(bits, var):
+    """The boolean array `bits` in the representation `var`."""
+    b = [c == '1' for c in bits.replace('-', '')]
+    if var in ('uint8', 'int8', 'int32', 'int64', 'float32', 'float64'):
+        return np.array(b, dtype=bool).astype(var)
+    if var == 'stride':                       # a non-contiguous view (every other sample of an interleaved buffer)
+        buf = np.ones(2 * len(b), dtype=bool)
+        buf[::2] = b
+        return buf[::2]
+    if var == 'negstride':
+        return np.array(b[::-1], dtype=bool)[::-1]
+    if var == 'readonly':
+        a = np.array(b, dtype=bool)
+        a.setflags(write=False)
+        return a
+    if var == 'pd':                           # what pipeline.edges passes
+        from psiaudio.pipeline import PipelineData
+        return PipelineData(np.array(b, dtype=bool), 1000.0, s0=5)
+    return np.array(b, dtype=bool)
+
+
+def build_table(iv, var):
+    """The interval table `iv` (integer bounds; 'half': the bounds are iv/2) in the representation `var`."""
+    rows = [[a, b] for a, b in iv]
+    if var == 'list':
+        return [list(r) for r in rows]
+    if var == 'tuples':
+        return tuple(tuple(r) for r in rows)
+    if var in ('int32', 'int16', 'uint16', 'uint64'):
+        return np.array(rows, dtype=var).reshape(-1, 2)
+    if var == 'float':
+        return np.array(rows, dtype=np.float64).reshape(-1, 2)
+    if var == 'half':
+        return np.array(rows, dtype=np.float64).reshape(-1, 2) / 2.0
+    if var == 'fortran':
+        return np.asfortranarray(np.array(rows, dtype=np.int64).reshape(-1, 2))
+    if var == 'view':                         # two columns of a wider table
+        wide = np.full((len(rows), 5), -99, dtype=np.int64)
+        if rows:
+            wide[:, 1::2][:, :2] = rows
+        return wide[:, 1::2][:, :2]
+    return np.array(rows, dtype=np.int64).reshape(-1, 2)
+
+
+def build_limit(d, var):
+    if var == 'half':
+        return d / 2.0
+    if var and var.startswith('d-'):
+        return np.dtype(var[2:]).type(d)
+    return d
+
+
+def fmt_scaled(arr, scale):
+    rows = []
+    for a, b in arr:
+        a, b = a * scale, b * scale
+        if a != int(a) or b != int(b):
+            return 'ok NONINTEGER'
+        rows.append((int(a), int(b)))
+    return 'ok ' + (','.join(f'{a}:{b}' for a, b in rows) if rows else '-')
+
+
+def snapshot(a):
+    """What the caller can observe of an argument (to see whether a call left it alone)."""
+    if isinstance(a, np.ndarray):
+        return ('nd', str(a.dtype), a.shape, a.tobytes() if a.flags.c_contiguous else np.ascontiguousarray(a).tobytes())
+    return ('py', repr(a))
+
+
 class C18(Spec):
     PROP = 'C18'
     MODEL = 'epochs'
@@ -102,7 +186,103 @@ class C18(Spec):
             p = rng.random()
             bits = ''.join('1' if rng.random() < p else '0' for _ in range(n))
             yield {'kind': 'epochs', 'bits': bits}
-            yield {'kind': 'debounce', 'd': rng.randint(0, 8), 'iv': ref_runs([b == '1' for b in bits])}
+            yield {'kind': 'debounce', 'd': rng.randint(-3, 8), 'iv': ref_runs([b == '1' for b in bits])}
+        yield from self.hardening_cases(rng, tier)
+
+    @staticmethod
+    def _rand_bits(rng, lo=1, hi=60):
+        n = rng.randint(lo, hi)
+        p = rng.random()
+        return ''.join('1' if rng.random() < p else '0' for _ in range(n))
+
+    def hardening_cases(self, rng, tier):
+        """HARDENING.md: representations of the same value, call spellings, scale, repeated use, aliasing."""
+        quick = tier == 'quick'
+        per = 40 if quick else 400
+        # 1/2. the same boolean array / table in another representation, other call spellings; every case also
+        #      checks that the argument comes back unmodified and (mut) that overwriting the returned table and
+        #      calling again gives the same answer
+        edge_bits = ['-', '0', '1', '11', '00', '01', '10', '101', '010', '0110', '1001', '1' * 9, '0' * 9]
+        for var in EPOCH_VARS + (['readonly'] if PENDING else []):
+            for bits in edge_bits:
+                yield {'kind': 'epochs', 'bits': bits, 'var': var, 'mut': 1}
+            for _ in range(per):
+                yield {'kind': 'epochs', 'bits': self._rand_bits(rng), 'var': var, 'mut': rng.randint(0, 1)}
+        for var in SMOOTH_VARS:
+            yield {'kind': 'smooth', 'iv': [], 'var': var, 'mut': 1}
+            for _ in range(per):
+                k = rng.randint(1, 8)
+                lo = 0 if var == 'uint16' else -10
+                iv = []
+                for _ in range(k):
+                    a = rng.randint(lo, 40)
+                    iv.append((a, a + rng.randint(0, 12)))
+                yield {'kind': 'smooth', 'iv': iv, 'var': var, 'mut': rng.randint(0, 1)}
+        for var in DEBOUNCE_VARS:
+            yield {'kind': 'debounce', 'd': 1, 'iv': [], 'var': var, 'mut': 1}
+            for _ in range(per):
+                runs = ref_runs([b == '1' for b in self._rand_bits(rng)])
+                yield {'kind': 'debounce', 'd': rng.randint(0, 6), 'iv': runs, 'var': var, 'mut': rng.randint(0, 1)}
+        # plain representation, but result overwritten + call repeated
+        for _ in range(per * 3):
+            runs = ref_runs([b == '1' for b in self._rand_bits(rng)])
+            yield {'kind': 'debounce', 'd': rng.randint(-2, 6), 'iv': runs, 'mut': 1}
+            yield {'kind': 'epochs', 'bits': self._rand_bits(rng), 'mut': 1}
+            iv = []
+            for _ in range(rng.randint(0, 8)):
+                a = rng.randint(-10, 40)
+                iv.append((a, a + rng.randint(0, 12)))
+            yield {'kind': 'smooth', 'iv': iv, 'mut': 1}
+        # 3. scale: sample numbers beyond 2^31 / 2^40, long arrays, thousands of intervals, tiny next to huge runs
+        for _ in range(per):
+            off = rng.choice([2 ** 31 - 3, 2 ** 32 + 5, BIG, 2 ** 52])
+            runs = [(a + off, b + off) for a, b in ref_runs([b == '1' for b in self._rand_bits(rng)])]
+            yield {'kind': 'debounce', 'd': rng.randint(0, 6), 'iv': runs, 'mut': 1}
+            mixed = list(runs)
+            rng.shuffle(mixed)
+            yield {'kind': 'smooth', 'iv': mixed + [(off - 2, off + rng.randint(0, 9))]}
+        for n in ([2 ** 16, 2 ** 20] if quick else [2 ** 16, 2 ** 18, 2 ** 20, 2 ** 21]):
+            for var in (None, 'uint8'):
+                yield {'kind': 'epochs-big', 'n': n, 'seed': rng.randrange(10 ** 6), 'var': var}
+        for k in ([3000] if quick else [3000, 8000]):
+            yield {'kind': 'table-big', 'op': 'smooth', 'k': k, 'seed': rng.randrange(10 ** 6), 'd': 0}
+            yield {'kind': 'table-big', 'op': 'debounce', 'k': k, 'seed': rng.randrange(10 ** 6), 'd': rng.randint(1, 40)}
+        # 5/6. histories: the table util.epochs returned is handed to several calls (debounce with several limits,
+        #      smooth), then the same array is analysed again
+        for _ in range(per * 5):
+            yield {'kind': 'chain', 'bits': self._rand_bits(rng, 0, 50), 'ds': [rng.randint(-1, 5) for _ in range(rng.randint(1, 3))],
+                   'var': rng.choice([None, None, 'uint8', 'pd'])}
+
+    @staticmethod
+    def expand(c):
+        """compact big cases -> the plain case they stand for"""
+        import random
+        if c['kind'] == 'epochs-big':
+            r = random.Random(c['seed'])
+            parts, n, v = [], 0, r.random() < 0.5
+            while n < c['n']:
+                l = r.choice([1, 1, 2, 3, r.randint(1, 40), r.randint(1, 40), r.randint(1000, c['n'] // 8)])
+                l = min(l, c['n'] - n)
+                parts.append(('1' if v else '0') * l)
+                n += l
+                v = not v
+            return {'kind': 'epochs', 'bits': ''.join(parts), 'var': c.get('var')}
+        if c['kind'] == 'table-big':
+            r = random.Random(c['seed'])
+            if c['op'] == 'smooth':
+                iv = []
+                for _ in range(c['k']):
+                    a = r.randint(0, 40 * c['k']) + (BIG if r.random() < 0.5 else 0)
+                    iv.append((a, a + r.choice([0, 1, 5, 30, 30, 200, 5000])))
+                return {'kind': 'smooth', 'iv': iv}
+            iv, pos = [], 2 ** 31 - 20 * c['k']
+            for _ in range(c['k']):
+                pos += r.choice([1, 2, c['d'], c['d'] + 1, r.randint(1, 90)])
+                e = pos + r.choice([1, c['d'] - 1 if c['d'] > 1 else 1, c['d'], r.randint(1, 90), 70000])
+                iv.append((pos, e))
+                pos = e
+            return {'kind': 'debounce', 'iv': iv, 'd': c['d']}
+        return c
 
     def reuse_cases(self, rng, tier):
         """The caller keeps ONE run table and debounces it with several limits in turn (e.g. a sweep): every answer
@@ -124,6 +304,12 @@ class C18(Spec):
         return ','.join(f'{a}:{b}' for a, b in iv) if iv else '-'
 
     def model_lines(self, c):
+        c = self.expand(c)
+        if c['kind'] == 'chain':
+            runs = ref_runs([b == '1' for b in c['bits'].replace('-', '')])
+            bits = c['bits'] or '-'
+            return ([f'epochs {bits}'] + [f"debounce {d} {self._pairs(runs)}" for d in c['ds']]
+                    + [f'smooth {self._pairs(runs)}', f'epochs {bits}'])
         if c['kind'] == 'epochs':
             return [f"epochs {c['bits']}"]
         if c['kind'] == 'smooth':
@@ -132,28 +318,95 @@ class C18(Spec):
             return [f"debounce {d} {self._pairs(c['iv'])}" for d in c['ds']]
         return [f"debounce {c['d']} {self._pairs(c['iv'])}"]
 
+    @staticmethod
+    def _call(util, op, arg, d=None, var=None):
+        if op == 'epochs':
+            if var == 'pos0':
+                return util.epochs(arg, 0)
+            if var == 'kw':
+                return util.epochs(x=arg)
+            if var == 'kwpad':
+                return util.epochs(arg, pad=0)
+            return util.epochs(arg)
+        if op == 'smooth':
+            return util.smooth_epochs(epochs=arg) if var == 'kw' else util.smooth_epochs(arg)
+        return util.debounce_epochs(epochs=arg, debounce=d) if var == 'kw' else util.debounce_epochs(arg, d)
+
+    def _one(self, util, op, arg, d=None, var=None, mut=False, scale=1):
+        """One call; canonical line + flags: ARG-MODIFIED (the call changed its argument), REPEAT-DIFFERS (after the
+        caller overwrote the returned table, the same call gives another answer)."""
+        fmt = (lambda r: fmt_scaled(r, scale)) if scale != 1 else fmt_pairs
+        try:
+            before = snapshot(arg)
+            r = self._call(util, op, arg, d, var)
+            line = fmt(r)
+            # smooth_epochs sorts an ndarray argument in place (unchanged library; reported, not demanded here)
+            if (op != 'smooth' or PENDING) and snapshot(arg) != before:
+                line += ' ARG-MODIFIED'
+            if mut:
+                if isinstance(r, np.ndarray) and r.size and r is not arg:
+                    r += 3
+                r2 = self._call(util, op, arg, d, var)
+                if fmt(r2) != line.split(' ARG-')[0]:
+                    line += ' REPEAT-DIFFERS'
+            return line
+        except (IndexError, ValueError, TypeError) as e:
+            return f'err {type(e).__name__}'
+
     def impl_lines(self, c):
         from psiaudio import util
-        try:
-            if c['kind'] == 'epochs':
-                x = np.array([b == '1' for b in c['bits'].replace('-', '')], dtype=bool)
-                return [fmt_pairs(util.epochs(x))]
+        c = self.expand(c)
+        var = c.get('var')
+        if c['kind'] == 'epochs':
+            return [self._one(util, 'epochs', build_bits(c['bits'], var), var=var, mut=c.get('mut'))]
+        if c['kind'] == 'chain':
+            x = build_bits(c['bits'], var)
+            out = [self._one(util, 'epochs', x)]
+            try:
+                table = util.epochs(x)                    # the library's own table, handed on as it is
+            except (IndexError, ValueError):
+                table = np.array(ref_runs([b == '1' for b in c['bits']]), dtype=np.int64).reshape(-1, 2)
+            for d in c['ds']:
+                out.append(self._one(util, 'debounce', table, d))
+            out.append(self._one(util, 'smooth', table))
+            out.append(self._one(util, 'epochs', x))
+            return out
+        if c['kind'] == 'debounce-reuse':
             arr = np.array(c['iv'], dtype=np.int64).reshape(-1, 2)
-            if c['kind'] == 'debounce-reuse':
-                out = []
-                for d in c['ds']:
-                    try:
-                        out.append(fmt_pairs(util.debounce_epochs(arr, d)))      # the SAME table object every time
-                    except (IndexError, ValueError) as e:
-                        out.append(f'err {type(e).__name__}')
-                return out
-            if c['kind'] == 'smooth':
-                return [fmt_pairs(util.smooth_epochs(arr))]
-            return [fmt_pairs(util.debounce_epochs(arr, c['d']))]
-        except (IndexError, ValueError) as e:
-            return [f'err {type(e).__name__}']
+            out = []
+            for d in c['ds']:
+                try:
+                    out.append(fmt_pairs(util.debounce_epochs(arr, d)))      # the SAME table object every time
+                except (IndexError, ValueError) as e:
+                    out.append(f'err {type(e).__name__}')
+            return out
+        scale = 2 if var == 'half' else 1
+        arr = build_table(c['iv'], var)
+        if c['kind'] == 'smooth':
+            return [self._one(util, 'smooth', arr, var=var, mut=c.get('mut'), scale=scale)]
+        return [self._one(util, 'debounce', arr, build_limit(c['d'], var), var=var, mut=c.get('mut'), scale=scale)]
 
     def oracle(self, c, out):
+        c = self.expand(c)
+        for l in out:
+            if 'ARG-MODIFIED' in l:
+                return f'the call modified the array it was given ({c["kind"]}, representation {c.get("var") or "plain"})'
+            if 'REPEAT-DIFFERS' in l:
+                return (f'{c["kind"]}: after the caller overwrote the returned table, the same call on the same argument '
+                        f'gives a different answer ({l[:80]})')
+            if 'NONINTEGER' in l:
+                return f'{c["kind"]}: bounds that are not among the given ones ({l[:80]})'
+        if c['kind'] == 'chain':
+            runs = ref_runs([b == '1' for b in c['bits'].replace('-', '')])
+            wants = [runs] + [ref_debounce(runs, d) for d in c['ds']] + [ref_cover(runs), runs]
+            names = ['epochs(x)'] + [f'debounce_epochs(epochs(x), {d})' for d in c['ds']] + ['smooth_epochs(epochs(x))', 'epochs(x) again']
+            for line, want, name in zip(out, wants, names):
+                if not line.startswith('ok '):
+                    return f'{name} raised: {line}'
+                got = parse_pairs(line[3:])
+                if got != want:
+                    return f'x={c["bits"][:60]}: {name} returned {got[:8]}, the run structure is {want[:8]}'
+            return None
         if c['kind'] == 'debounce-reuse':
             runs = [tuple(p) for p in c['iv']]
             for j, (d, line) in enumerate(zip(c['ds'], out)):
@@ -165,23 +418,29 @@ class C18(Spec):
                             f'returned {got}, the run structure is {want}')
             return None
         if not out[0].startswith('ok '):
-            return f'raised: {out[0]}'
+            return f'{c["kind"]} ({c.get("var") or "plain"} representation) raised: {out[0]}'
         got = parse_pairs(out[0][3:])
         if c['kind'] == 'epochs':
             want = ref_runs([b == '1' for b in c['bits'].replace('-', '')])
-            what = f"epochs({c['bits']})"
+            what = f"epochs({c['bits'][:80]})"
         elif c['kind'] == 'smooth':
             want = ref_cover([tuple(p) for p in c['iv']])
             what = f"smooth_epochs({c['iv']})"
         else:
             want = ref_debounce([tuple(p) for p in c['iv']], c['d'])
             what = f"debounce_epochs({c['iv']}, {c['d']})"
+        if c.get('var'):
+            what += f' [{c["var"]} representation]'
         if got != want:
-            return f'{what} returned {got}, the run structure is {want}'
+            j = next((j for j, (a, b) in enumerate(zip(got, want)) if a != b), min(len(got), len(want)))
+            return f'{what[:200]} returned {got[max(0, j - 2):j + 3]} (entry {j}), the run structure is {want[max(0, j - 2):j + 3]}'
         return None
 
+    def kind(self, c):
+        return c['kind'] + ('/' + c['var'] if c.get('var') else '')
+
     def nontrivial(self, c, out):
-        if c['kind'] == 'debounce-reuse':
+        if c['kind'] in ('debounce-reuse', 'chain', 'epochs-big', 'table-big'):
             return True
         if c['kind'] == 'epochs':
             return '0' in c['bits'] and '1' in c['bits']
@@ -196,10 +455,21 @@ class C18(Spec):
             yield {'kind': 'epochs', 'bits': ('1' + b)}
 
     def shrink_candidates(self, c):
+        if c['kind'] in ('epochs-big', 'table-big'):
+            yield self.expand(c)
+            return
+        if c['kind'] == 'chain':
+            b = c['bits']
+            for i in range(len(b)):
+                yield dict(c, bits=b[:i] + b[i + 1:])
+            for i in range(len(c['ds'])):
+                if len(c['ds']) > 1:
+                    yield dict(c, ds=c['ds'][:i] + c['ds'][i + 1:])
+            return
         if c['kind'] == 'epochs':
             b = c['bits'].replace('-', '')
             for i in range(len(b)):
-                yield {'kind': 'epochs', 'bits': (b[:i] + b[i + 1:]) or '-'}
+                yield dict(c, bits=(b[:i] + b[i + 1:]) or '-')
         else:
             for i in range(len(c['iv'])):
                 d = dict(c)
